@@ -253,6 +253,13 @@ class FastParetoOptimalAlgorithm(BaseParetoOptimalAlgorithm):
     cross_check = self.is_pareto_optimal_against(
         lower_array, higher_array, strict=True)
     lower_pareto = lower_pareto & cross_check
+    # The split can fall inside a run of equal first coordinates. Points of the
+    # lower half that tie with the smallest first coordinate of the higher half
+    # can still dominate points of the higher half.
+    tied_lower = lower_array[lower_array[:, 0] == higher_array[0, 0]]
+    if len(tied_lower):
+      higher_pareto = higher_pareto & self.is_pareto_optimal_against(
+          higher_array, tied_lower, strict=True)
 
     is_optimal = np.zeros(len(points), dtype=bool)
     is_optimal[ascending_indices[:split_index]] = lower_pareto
